@@ -41,6 +41,11 @@ func c14Env() {
 			panic(err)
 		}
 		workceptor.MainInstance = w
+		w.RegisterWorker("wt", func(_ workceptor.BaseWorkUnitForWorkUnit, w *workceptor.Workceptor, id, wt string) workceptor.WorkUnit {
+			u := &scriptedUnit{kind: "hold", env: &ctlEnv{}}
+			u.BaseWorkUnit.Init(w, id, wt, workceptor.FileSystem{}, stubWatcher{})
+			return u
+		}, false)
 		c14W = w
 	})
 }
@@ -169,6 +174,20 @@ func runC14Once(sc c14Scenario, r *xrun) []Violation {
 					if _, err := sw.Write([]byte("xyz")); err != nil {
 						out.violate("status:update-failed", "%s: %v", name, err)
 					}
+				case "S":
+					// another part of the daemon looks the unit up by ID and finds it only on disk (the scan that
+					// registers units found in the data directory): it loads the record like any other reader
+					mu.Lock()
+					from := len(history) - 1
+					mu.Unlock()
+					st, err := c14W.UnitStatus(id)
+					mu.Lock()
+					if err == nil {
+						loads = append(loads, loadObs{name, from, len(history) - 1, absOf(st), nil})
+					} else {
+						loads = append(loads, loadObs{name, from, len(history) - 1, c14Abs{}, err})
+					}
+					mu.Unlock()
 				case "L1":
 					mu.Lock()
 					from := len(history) - 1
@@ -203,6 +222,14 @@ func runC14Once(sc c14Scenario, r *xrun) []Violation {
 		}
 	}
 	res := s.run(r)
+	defer func() {
+		for _, spec := range sc.Threads {
+			if strings.HasPrefix(spec, "S") {
+				c14W.ReleaseUnit(id, true)
+				break
+			}
+		}
+	}()
 	if res.deadlock {
 		out.violate("status:deadlock", "no thread can run: %s", res.stuck)
 		s.abandon()
@@ -263,6 +290,8 @@ func runC14(w *W) {
 		{"daemon writer, daemon reader; the real in-memory lock decides", []string{"D2", "L2"}, b, true},
 		{"cancel-style update, daemon reader; the real in-memory lock decides", []string{"D3", "L2"}, b, true},
 		{"two daemon writers; the real in-memory lock decides", []string{"D1", "D2"}, b, true},
+		{"runner rewrites while the daemon discovers the unit on disk; the real file lock decides", []string{"R1", "S"}, b, true},
+		{"runner rewrites twice, stdout writer, discovery on disk; the real file lock decides", []string{"R1x2", "R2", "S"}, 1, true},
 		{"daemon writers, daemon reader", []string{"D1", "D2", "L2"}, b, false},
 		{"cancel-style update (size unchanged) + stdout writer twice", []string{"D3", "R2x2"}, b, false},
 		{"cancel-style update + stdout writer + daemon reader", []string{"D3", "R2", "L2"}, b, false},
@@ -290,7 +319,7 @@ func init() {
 		ID:        "C14",
 		Level:     "model_checking",
 		Technique: "iterative context-bounding DFS of a cooperative scheduler over hook points in the real Save/Load/UpdateFullStatus/STDoutWriter code (lock file and in-memory lock modelled from the points; real files in tmpfs); final record and every load compared with the fold of the committed updates",
-		Rule: "threads: daemon goroutines sharing one BaseWorkUnit (D1 increments State, D2 appends to WorkType, D3 = UpdateBasicStatus(Canceled, size unchanged), L2 = Load+Status) and other processes with their own StatusFileData (R1 appends to Detail, R2 = STDoutWriter.Write, L1 = Load); 3 threads with 1-2 operations each, every schedule with <=2 preemptions (thorough: 4-5 threads, <=3); switches at blocked/finished threads are free; in three two-thread scenarios a thread that the hook-derived model of the in-memory lock says is blocked may be resumed anyway (one deviation) so that the real lock, not the position of the hook points, decides who waits. " +
+		Rule: "threads: daemon goroutines sharing one BaseWorkUnit (D1 increments State, D2 appends to WorkType, D3 = UpdateBasicStatus(Canceled, size unchanged), L2 = Load+Status, S = a look-up by ID that discovers the unit on disk) and other processes with their own StatusFileData (R1 appends to Detail, R2 = STDoutWriter.Write, L1 = Load); 3 threads with 1-2 operations each, every schedule with <=2 preemptions (thorough: 4-5 threads, <=3); switches at blocked/finished threads are free; in three two-thread scenarios a thread that the hook-derived model of the in-memory lock says is blocked may be resumed anyway (one deviation) so that the real lock (in memory or the lock file), not the position of the hook points, decides who waits. " +
 			"A case is one scenario part; non-trivial = more than one schedule. Oracle: no dead-lock, no failed update, final record = fold of all updates (each writer owns a field), every load parses and equals a record committed while it ran, at rest the unit's in-memory record holds every update made by the daemon's own goroutines.",
 		Assumptions: []string{"other processes are represented by goroutines with their own StatusFileData: the advisory lock (flock on a fresh descriptor of <file>.lock) excludes them exactly like separate processes", "scheduling points are the hook points; code between two points runs atomically"},
 		Run:         runC14,
